@@ -16,6 +16,25 @@ theorem verdict :
 #print axioms apply_wf_partial
 #print axioms untouched_bytes
 #print axioms untouched_leaf_bytes
+#print axioms untouched_target
+#print axioms apply_refines_spec_partial
+#print axioms apply_refines_spec_unvalidated_partial
+#print axioms atomic_fold
+#print axioms inc_keeps_format
+#print axioms common
+#print axioms Hv.Patch.walk_refines
+#print axioms Hv.Patch.walk_resolve
+#print axioms Hv.Patch.editAt_spec
+#print axioms Hv.Patch.extractTop_parse
+#print axioms Hv.Patch.applyOp_carries
+#print axioms Hv.Patch.hSet_siblings
+#print axioms Hv.Patch.hInc_siblings
+#print axioms Hv.Patch.hDelete_siblings
+#print axioms Hv.Patch.hRemoveAt_siblings
+#print axioms Hv.Patch.hRemoveVal_siblings
+#print axioms Hv.Patch.hMerge_siblings
+#print axioms Hv.Patch.hAppend_keeps
+#print axioms Hv.Patch.autoCreate_keeps
 #print axioms ops_atomic
 #print axioms ops_atomic_fold
 #print axioms cond_unmet
